@@ -473,6 +473,16 @@ class Driver:
             vis = [rc for rc in ok if min(x0, x1) <= m.Fn[tuple(rc)] <= max(x0, x1) and min(y0, y1) + 0.3 <= rc[1] <= max(y0, y1) - 0.3]
             if vis:
                 ok = np.array(vis)
+        if m.variant != "FDD" and rng.random() < 0.07:
+            # at the edge of the view, at the order of a retained pole that lies OUTSIDE the view (freqlim, zoom): the
+            # nearest pole at that order may well be the invisible one - it is selected although no marker shows
+            lo_v, hi_v = min(x0, x1), max(x0, x1)
+            out = [tuple(rc) for rc in np.argwhere(~np.isnan(m.Fn)) if not (lo_v <= m.Fn[tuple(rc)] <= hi_v)]
+            if out:
+                rc = rng.choice(out)
+                edge = lo_v + 0.01 * (hi_v - lo_v) if m.Fn[rc] < lo_v else hi_v - 0.01 * (hi_v - lo_v)
+                self.inc("probe.click_at_view_edge_towards_invisible_pole")
+                return {"x": float(edge), "y": float(rc[1] + rng.uniform(-0.4, 0.4))}
         if r < 0.70 and len(ok):
             # near a retained pole; biased to descending frequency order half of the time
             if self.swarm.get("descending") and m.n_picks and rng.random() < 0.7:
